@@ -234,6 +234,7 @@ type vC18State struct {
 	Blocked  bool        `json:"blocked"`
 	Parked   bool        `json:"parked"`
 	Disps    int64       `json:"dispatchers"`
+	Ack      string      `json:"ack"`
 	PubFails int64       `json:"pubfails"`
 	RecFails int64       `json:"recfails"`
 }
@@ -339,6 +340,8 @@ type vC18Node struct {
 	pubFails int64
 	recFails int64
 	blocked  bool
+	blockHow string // "readonly": rejected before it is sent; "nack": the partition answers with an error ack
+	maxBytes int64
 	stepped  bool // leadershipLost was played, leadershipAcquired not yet
 }
 
@@ -454,7 +457,9 @@ func (r *vC18Run) config(id string, cluster bool) *Config {
 	cfg.DataDir = filepath.Join(storagePath, fmt.Sprintf("c18-%d", r.bid), id)
 	cfg.ActivityStream.Enabled = true
 	cfg.ActivityStream.PublishTimeout = 2 * time.Second
-	cfg.ActivityStream.PublishAckPolicy = client.AckPolicy_LEADER
+	// the ack policy of the activity publishes is NOT set here: the server's default is
+	// what decides whether "published" means "committed to the stream"; the effective
+	// value is recorded (`ack`) and judged
 	cfg.Groups.ConsumerTimeout = time.Hour
 	cfg.Groups.CoordinatorTimeout = time.Hour
 	cfg.Clustering.RaftSnapshots = 2
@@ -620,6 +625,7 @@ func (r *vC18Run) state(focus *vC18Node) vC18State {
 		st.Parked = n.gate.isParked()
 		st.Lp = int64(n.srv.activity.LastPublishedRaftIndex())
 		st.Disps = vC18Dispatchers()
+		st.Ack = n.srv.config.ActivityStream.PublishAckPolicy.String()
 		r.readRaftLog(n)
 		r.readPub(n)
 		st.Up = true
@@ -807,8 +813,14 @@ func (r *vC18Run) step(step map[string]interface{}) (ev vC18Event) {
 	case "PublishFail":
 		n := r.node(step)
 		focus = n
-		r.waitDispatcher(n, "publish failure", func() bool { return atomic.LoadInt64(&n.pubFails) > r.seenPubFails })
-		r.seenPubFails++
+		// expected: a failure report.  A dispatcher that arrives at the publish gate
+		// instead (its publish "succeeded") is simply recorded - the next steps go on.
+		r.waitDispatcher(n, "publish failure", func() bool {
+			return atomic.LoadInt64(&n.pubFails) > r.seenPubFails || n.gate.isParked()
+		})
+		if atomic.LoadInt64(&n.pubFails) > r.seenPubFails {
+			r.seenPubFails++
+		}
 	case "Backoff", "DispatchSkip", "NoticeLost", "DispatchExit":
 		focus = r.nodes[vStrDef(step, "n", r.order[0])]
 	case "Block", "Unblock":
@@ -824,8 +836,27 @@ func (r *vC18Run) step(step map[string]interface{}) (ev vC18Event) {
 		if p == nil {
 			vC18Fail("no activity partition on %s", n.id)
 		}
-		p.log.SetReadonly(a == "Block")
-		n.blocked = a == "Block"
+		if a == "Block" {
+			n.blockHow = vStrDef(step, "how", "readonly")
+			switch n.blockHow {
+			case "nack":
+				// every event is larger than what the partition accepts: the publish is
+				// delivered and answered with an error ack (TOO_LARGE), nothing is stored
+				n.maxBytes = n.srv.config.Clustering.ReplicationMaxBytes
+				n.srv.config.Clustering.ReplicationMaxBytes = 1
+			default:
+				p.log.SetReadonly(true)
+			}
+			n.blocked = true
+		} else {
+			switch n.blockHow {
+			case "nack":
+				n.srv.config.Clustering.ReplicationMaxBytes = n.maxBytes
+			default:
+				p.log.SetReadonly(false)
+			}
+			n.blocked = false
+		}
 	case "Crash":
 		n := r.node(step)
 		if n.srv != nil {
